@@ -31,6 +31,8 @@ import Nitime.Model.C05Grid
 import Nitime.Model.C05Hist
 import Nitime.Generated.Grids
 import Nitime.Generated.Methods
+import Nitime.Model.C05Len
+import Nitime.Generated.GridLens
 
 namespace Nitime.C05
 open Nitime.Proto
@@ -48,6 +50,11 @@ def lookup (site : String) : Option GridExpr := (Nitime.Generated.Grids.sites.lo
 
 def parseUb? (s : String) : Option (Option Rat) :=
   if s = "none" then some none else (parseQ? s).map some
+
+def lookupLen (fn : String) : Option LenSite := (Nitime.Generated.GridLens.lens.lookup fn)
+
+def parseOptNat? (s : String) : Option (Option Nat) :=
+  if s = "none" then some none else s.toNat?.map some
 
 def handleVec (args : List String) : String :=
   match args with
@@ -104,6 +111,22 @@ def handleVec (args : List String) : String :=
     | some q, some k => showRatList (trueFreqz q k)
     | _, _ => "bad-args"
   | ["sites"] => joinList (Nitime.Generated.Grids.sites.map (·.1))
+  | ["gridx", site, fn, fs, nd, nf, sk] =>
+    -- the site's grid at the length the estimator `fn` builds it from, for a call with `nd` samples, `N=`/`NFFT=` `nf`
+    -- and a supplied transform of `sk` points (`none`: not given)
+    match lookup site, lookupLen fn, parseQ? fs, nd.toNat?, parseOptNat? nf, parseOptNat? sk with
+    | some g, some ls, some q, some d, some f, some s => showRatList (eval g piApprox q (ls.gridLen.eval ⟨d, f, s⟩))
+    | none, _, _, _, _, _ => "no-such-site"
+    | _, none, _, _, _, _ => "no-such-estimator"
+    | _, _, _, _, _, _ => "bad-args"
+  | ["lens", fn, nd, nf, sk] =>
+    -- `<grid length> <points of the transform used> <is it the supplied one 0/1>`
+    match lookupLen fn, nd.toNat?, parseOptNat? nf, parseOptNat? sk with
+    | some ls, some d, some f, some s =>
+      let e : LenEnv := ⟨d, f, s⟩
+      toString (ls.gridLen.eval e) ++ " " ++ toString (ls.transform.len e) ++ " " ++ (if ls.transform.usesSupplied e then "1" else "0")
+    | none, _, _, _ => "no-such-estimator"
+    | _, _, _, _ => "bad-args"
   | _ => "bad-op"
 
 /-- the vector ops again, as values (for the history machines) -/
